@@ -1924,6 +1924,56 @@ def fam_linear(rng, n, tier, mode="exact"):
             L.append("samegrad d_%s e_%s" % (v, v))
         out.append(Case(L, ("lin", i, al, be, dag_key(p)), ["alpha%d" % al, "beta%d" % be], mode,
                         nontrivial=(al != 0 or be != 0)))
+    # seeds that agree in everything a summary could see - shape, element total, multiset of entries - and differ
+    # in where the entries sit (one-hot pairs, permutations, [2,0] next to [1,1]), through operations whose
+    # adjoint arrives as an array of several elements (partial sums, products, a broadcast operand); passes in
+    # sequence in one process, then an omitted seed straight after a seed with the total of ones
+    for (dims, kk) in (([2, 3], 1), ([3, 2], 1), ([2, 2, 2], 1), ([2, 2, 2], 2), ([4, 2], 1)):
+        od = dims[:len(dims) - kk] + [1]
+        cnt = prod(od)
+        pairs = []
+        for i in range(cnt):
+            for j in range(cnt):
+                if i != j and len(pairs) < 3:
+                    pairs.append(([1 if t == i else 0 for t in range(cnt)], [1 if t == j else 0 for t in range(cnt)]))
+        base = ints(rng, cnt, -3, 3, nonzero=True)
+        perm = base[1:] + base[:1]
+        pairs.append((base, perm))
+        pairs.append(([2] + [0] * (cnt - 1), [1, 1] + [0] * (cnt - 2)))
+        for (s1, s2) in pairs:
+            for shape_ in ("sum", "mulsum", "bcastsum"):
+                al, be = rng.choice([2, -1, 3]), rng.choice([1, -2, 1])
+                s3 = [al * x + be * y for x, y in zip(s1, s2)]
+                L = []
+                vals = vals_s(gen_vals(rng, prod(dims), mode), mode)
+                cv = vals_s(gen_vals(rng, prod(dims), mode), mode)
+                bv = vals_s(gen_vals(rng, dims[-1], mode), mode)
+
+                def inst(pre, seedline):
+                    M = ["new %sw %s %s" % (pre, dims_s(dims), vals), "tracked %sw" % pre]
+                    if shape_ == "sum":
+                        M.append("sum %sr %sw %d" % (pre, pre, kk))
+                    elif shape_ == "mulsum":
+                        M += ["new %sc %s %s" % (pre, dims_s(dims), cv), "mul %sm %sw %sc" % (pre, pre, pre), "sum %sr %sm %d" % (pre, pre, kk)]
+                    else:
+                        M += ["new %sb %s %s" % (pre, dims_s([dims[-1]]), bv), "tracked %sb" % pre, "mul %sm %sw %sb" % (pre, pre, pre),
+                              "sum %sr %sm %d" % (pre, pre, kk)]
+                    return M + seedline
+                for pre, sv in (("a_", s1), ("b_", s2), ("c_", s3)):
+                    L += inst(pre, ["new %sseed %s %s" % (pre, dims_s(od), vals_s(sv, mode)), "backward %sr %sseed" % (pre, pre), "grad %sw" % pre])
+                L.append("lin c_w %s a_w %s b_w" % (sc(al, mode), sc(be, mode)))
+                if shape_ == "bcastsum":
+                    L.append("lin c_b %s a_b %s b_b" % (sc(al, mode), sc(be, mode)))
+                # the same graph differentiated again with the other seed: (s1 then s2) on one instance = s1 + s2 on a fresh one
+                L += inst("f_", ["new f_s1 %s %s" % (dims_s(od), vals_s(s1, mode)), "backward f_r f_s1",
+                                 "new f_s2 %s %s" % (dims_s(od), vals_s(s2, mode)), "backward f_r f_s2", "grad f_w"])
+                L.append("lin f_w %s a_w %s b_w" % (sc(1, mode), sc(1, mode)))
+                # a seed whose total is the total of ones, then the omitted seed, then explicit ones
+                L += inst("p_", ["new p_seed %s %s" % (dims_s(od), vals_s([cnt] + [0] * (cnt - 1), mode)), "backward p_r p_seed", "grad p_w"])
+                L += inst("d_", ["backward d_r -", "grad d_w"])
+                L += inst("e_", ["new e_seed %s %s" % (dims_s(od), vals_s([1] * cnt, mode)), "backward e_r e_seed", "grad e_w"])
+                L.append("samegrad d_w e_w")
+                out.append(Case(L, ("lincollide", tuple(dims), kk, tuple(s1), tuple(s2), shape_), ["equal-total-seeds", "through-" + shape_], mode))
     return out
 
 
@@ -2706,3 +2756,59 @@ def fam_sizes(rng, n, tier, mode="exact", part="all", grads=False):
 
 
 FAMILIES.update({"sizes": fam_sizes})
+
+
+def fam_optim_holds(rng, n, tier, mode="exact"):
+    """C12 / C13 / C08: an optimizer step over parameter lists in which every subset of the parameters is still
+    named by something else when the step runs - a clone, a result computed from it (a live graph), a reshaped
+    view - and the rest are named by nothing (results dropped before the step); a twin list with the same values
+    and gradients and no other handle is stepped next to it and compared parameter by parameter."""
+    cases = []
+    kinds = ("none", "clone", "result", "view")
+    combos = []
+    for k in (2, 3):
+        combos += [(k, h) for h in itertools.product(kinds, repeat=k)]
+    for _ in range(n):
+        k = rng.randint(2, 5)
+        combos.append((k, tuple(rng.choice(kinds) for _ in range(k))))
+    for (k, holds) in combos:
+        for src in (("setgrad", "pass") if k <= 2 else (rng.choice(("setgrad", "pass")),)):
+            L = []
+            shapes = [rand_shape(rng, 2, 3) for _ in range(k)]
+            names, twins = ["p%d" % i for i in range(k)], ["z%d" % i for i in range(k)]
+            for i, (sh, hold) in enumerate(zip(shapes, holds)):
+                vals = vals_s(gen_vals(rng, prod(sh), mode), mode)
+                gv = vals_s(gen_vals(rng, prod(sh), mode), mode)
+                for nm in (names[i], twins[i]):
+                    L += ["new %s %s %s" % (nm, dims_s(sh), vals), "tracked %s" % nm]
+                    if src == "setgrad":
+                        L += ["new g%s %s %s" % (nm, dims_s(sh), gv), "setgrad %s g%s" % (nm, nm)]
+                    else:
+                        L += ["new c%s %s %s" % (nm, dims_s(sh), gv), "mul r%s %s c%s" % (nm, nm, nm), "backward r%s -" % nm, "drop r%s" % nm]
+                if hold == "clone":
+                    L.append("clone h%d %s" % (i, names[i]))
+                elif hold == "result":
+                    L.append("scale h%d %s %s" % (i, names[i], sc(3, mode)))
+                elif hold == "view":
+                    L.append("reshape h%d %s %d,1" % (i, names[i], prod(sh)))
+            lr = sc(Fraction(1, 2) if mode == "exact" else 0.25, mode)
+            for rep in range(2):
+                L += ["gdupdate %s %s" % (lr, ",".join(names)), "gdupdate %s %s" % (lr, ",".join(twins)), "snapshot"]
+                for a, b in zip(names, twins):
+                    L += ["same %s %s" % (a, b), "probe %s" % a]
+                L += ["show h%d" % i for i, h in enumerate(holds) if h != "none"]
+                if rep == 0:                      # a second step: every parameter is a fresh array now; new gradients
+                    for i, sh in enumerate(shapes):
+                        gv = vals_s(gen_vals(rng, prod(sh), mode), mode)
+                        for nm in (names[i], twins[i]):
+                            L += ["new k%s %s %s" % (nm, dims_s(sh), gv), "setgrad %s k%s" % (nm, nm)]
+                    if rng.random() < 0.5:
+                        j = rng.randrange(k)
+                        L.append("clone hh %s" % names[j])
+            cases.append(Case(L, ("optholds", k, holds, src, tuple(map(tuple, shapes))),
+                              ["k%d" % k, "src-" + src] + sorted(set("hold-" + h for h in holds))
+                              + (["unshared-before-shared"] if any(holds[i] == "none" and any(h != "none" for h in holds[i + 1:]) for i in range(k)) else []), mode))
+    return cases
+
+
+FAMILIES.update({"optim_holds": fam_optim_holds})
